@@ -488,7 +488,7 @@ func (s *skeleton) headerSeesLater(h string, u int) bool {
 }
 
 func checkC07(c *Check) {
-	c.Rule = "exhaustive over one block skeleton with 24 sites (top level, if / else-if / else, nested if, 3-clause for, range, while-for, switch cases inside and outside loops, a function body with nested blocks): every ordered pair (definition site, use site) x definition kind x use kind, redefinition variants, header variables (parameter, for-init, range), function definition x call site, break/continue/return/func at every site, import boundary uses at every site, plus fixed scope cells; a third of the cells again with every closing brace moved onto the preceding statement line; expected verdict from a scope calculator over the block tree; both targets. Every cell is a distinct program; distinct = SHA-256 of source"
+	c.Rule = "exhaustive (plus value lists inside nested blocks naming outer variables, and value functions ending in endless loops with a break in every kind of branch) over one block skeleton with 24 sites (top level, if / else-if / else, nested if, 3-clause for, range, while-for, switch cases inside and outside loops, a function body with nested blocks): every ordered pair (definition site, use site) x definition kind x use kind, redefinition variants, header variables (parameter, for-init, range), function definition x call site, break/continue/return/func at every site, import boundary uses at every site, plus fixed scope cells; a third of the cells again with every closing brace moved onto the preceding statement line; expected verdict from a scope calculator over the block tree; both targets. Every cell is a distinct program; distinct = SHA-256 of source"
 	c.Assumptions = []string{"scope calculator: definition to end of block; header variables within their construct; functions after their top-level definition, not inside themselves; function bodies see globals defined earlier; no shadowing", "break directly inside a switch outside any loop is not asserted (legal in Go, excluded as undefined behaviour by C01)"}
 	cells := c07Cells(c.Thorough())
 	c.Exhaustive = true
